@@ -67,7 +67,7 @@ STRENGTHENED = {
     "C19-8": "C19 missed it: taints with percent-escaped metacharacters; a page showing their decoded form counts",
     "C19-9": "C19 missed it: names that are empty once commas and line breaks are removed",
     "C20-9": "C20 missed it: torrents created by hash with a display name, then completed with their info dictionary",
-    # fourth round (k = 10..12; C01 C02 C03 C05 C08 C09 C10 C12 C16 C17 C18 C19 only)
+    # fourth round (k = 10..12)
     "C02-11": "no verdict: the change adds a parameter to the exported Torrent.Request, the harness does not build against it (BUILD FAILED, non-zero exit). Its signature-preserving twin is C17-12; C02 missed that one too: a new reader is cancelled while its first request waits behind a busy loop, then the loop must still answer",
     "C02-12": "C02 missed it: a FUSE read that begins in a complete piece and runs into a missing one is interrupted, or the torrent deleted: a reply without error and with fewer bytes than asked, short of the end of the file, is a violation",
     "C03-11": "C03 missed it: LRU passes over pieces that hold a buffer and no chunk yet (first bytes of a block arrived)",
@@ -79,6 +79,10 @@ STRENGTHENED = {
     "C16-11": "C16 missed it: the torrent stops while its mailbox is full (stop event queued behind a held loop, remaining slots filled), so the peers' last reports cannot be delivered; unchoke count must return to its base",
     "C17-10": "C17 missed it: family 'stalled peer at deletion' (writer queue to a non-reading peer filled exactly, a pending interest change retried on every event, a burst of evictions, then a status query and the deletion)",
     "C17-12": "C17 missed it: family 'reader cancelled while its request is queued' (loop parked, request queued, context cancelled, loop released; then every operation and Kill must return)",
+    "C07-11": "C07 missed it: segmentation family 'end-with-last-bytes' (the transport reports the end of the stream in the same Read as its last bytes)",
+    "C07-12": "C07 missed it: family 'id-after-reply' (plain handshake, storrent the server: the peer sends its id only after it has read storrent's handshake)",
+    "C11-10": "C11 missed it: the observer stops reading 20 s before a PEX tick, its writer queue is filled exactly, an arrival is pending at the tick; then it reads again and the newcomer leaves, comes back and leaves",
+    "C11-11": "C11 missed it (and C09): family 'adverts before metadata' (magnet torrent; have-all / have-none / have / bitfield sequences before the metadata is known, then metadata, unchoke, demand)",
 }
 rows = []
 for d in sorted(glob.glob(os.path.join(ROOT, "seeded", "C[0-9][0-9]-*"))):
